@@ -37,6 +37,13 @@ ENTRIES = [
     V("S-v-gae-static-split-same", "C03", (RB, "        next_non_terminals = 1.0 - self.dones.astype(float)", "        if self.dones.ndim == 1:\n            next_non_terminals = 1.0 - self.dones.astype(float)\n        else:\n            next_non_terminals = 1.0 - self.dones.astype(float)")),
     M("S-gae-static-split-wrong-branch", "C03", "C03", (RB, "        next_non_terminals = 1.0 - self.dones.astype(float)", "        if self.dones.ndim == 1:\n            next_non_terminals = 1.0 - self.dones.astype(float)\n        else:\n            next_non_terminals = jnp.ones_like(self.dones, dtype=float)")),
     M("S-dqn-loss-static-split", "C07", "C07", (DQN, "        not_terminal = (~batch.dones | batch.timeouts).astype(float)", "        if gamma == 1.0:\n            not_terminal = jnp.ones_like(batch.rewards)\n        else:\n            not_terminal = (~batch.dones | batch.timeouts).astype(float)")),
+    # ---------------------------------------------------------------- restylings met in the third behaviour-preserving round, and broken twins
+    V("R3-v-replay-add-one-tree-at-over-dict", ["C05", "C06", "C07"], (RPB, "        result = self\n        for where_fn, replacement in zip(where_fns, replacements):\n            result = eqx.tree_at(where_fn, result, replacement)\n        return result", "        updates = dict(zip([\"position\", \"observations\", \"next_observations\", \"actions\", \"rewards\", \"dones\", \"timeouts\"], replacements[:7]))\n        names = (\"position\", \"observations\", \"next_observations\", \"actions\", \"rewards\", \"dones\", \"timeouts\") + ((\"states\", \"next_states\") if self.states is not None else ())\n        return eqx.tree_at(lambda rb: tuple(getattr(rb, n) for n in names), self, tuple(replacements))")),
+    M("R3-replay-add-one-tree-at-values-shifted", ["C05", "C06", "C07"], ["C05.5", "C06", "C07.7"], (RPB, "        result = self\n        for where_fn, replacement in zip(where_fns, replacements):\n            result = eqx.tree_at(where_fn, result, replacement)\n        return result", "        names = (\"position\", \"observations\", \"next_observations\", \"actions\", \"rewards\", \"timeouts\", \"dones\") + ((\"states\", \"next_states\") if self.states is not None else ())\n        return eqx.tree_at(lambda rb: tuple(getattr(rb, n) for n in names), self, tuple(replacements))")),
+    V("R3-v-box-sample-select", "C14", ("lerax/space/box.py", "        sample = jnp.empty(self.shape, dtype=self.low.dtype)\n\n        sample = jnp.where(\n            bounded,\n            jr.uniform(bounded_key, self.shape, minval=self.low, maxval=self.high),\n            sample,\n        )\n\n        sample = jnp.where(unbounded, jr.normal(unbounded_key, self.shape), sample)\n\n        sample = jnp.where(\n            upper_bounded,\n            self.high - jr.exponential(upper_bounded_key, self.shape),\n            sample,\n        )\n\n        sample = jnp.where(\n            lower_bounded,\n            self.low + jr.exponential(lower_bounded_key, self.shape),\n            sample,\n        )\n\n        return sample", "        return jnp.select([bounded, unbounded, upper_bounded, lower_bounded], [jr.uniform(bounded_key, self.shape, minval=self.low, maxval=self.high), jr.normal(unbounded_key, self.shape), self.high - jr.exponential(upper_bounded_key, self.shape), self.low + jr.exponential(lower_bounded_key, self.shape)], jnp.empty(self.shape, dtype=self.low.dtype))")),
+    M("R3-box-sample-select-draws-crossed", "C14", "C14.6", ("lerax/space/box.py", "        sample = jnp.empty(self.shape, dtype=self.low.dtype)\n\n        sample = jnp.where(\n            bounded,\n            jr.uniform(bounded_key, self.shape, minval=self.low, maxval=self.high),\n            sample,\n        )\n\n        sample = jnp.where(unbounded, jr.normal(unbounded_key, self.shape), sample)\n\n        sample = jnp.where(\n            upper_bounded,\n            self.high - jr.exponential(upper_bounded_key, self.shape),\n            sample,\n        )\n\n        sample = jnp.where(\n            lower_bounded,\n            self.low + jr.exponential(lower_bounded_key, self.shape),\n            sample,\n        )\n\n        return sample", "        return jnp.select([bounded, unbounded, upper_bounded, lower_bounded], [jr.uniform(bounded_key, self.shape, minval=self.low, maxval=self.high), jr.normal(unbounded_key, self.shape), self.low + jr.exponential(lower_bounded_key, self.shape), self.high - jr.exponential(upper_bounded_key, self.shape)], jnp.empty(self.shape, dtype=self.low.dtype))")),
+    V("R3-v-offpolicy-initial-keywords", "C05", (OFP, "        return cls(env_state, policy_state, callback_state, buffer)", "        return cls(env_state=env_state, policy_state=policy_state, callback_state=callback_state, buffer=buffer)")),
+    M("R3-offpolicy-initial-keywords-buffer-lost", "C05", "C05.5", (OFP, "        return cls(env_state, policy_state, callback_state, buffer)", "        return cls(env_state=env_state, policy_state=policy_state, callback_state=callback_state, buffer=None)")),
     # ---------------------------------------------------------------- rules prompted by the sixth seeding round
     M("S6-gymnax-adapter-eq-by-name", ["C01", "C11"], ["C01.8", "C11.1"], ("lerax/compatibility/gymnax.py", "    def __init__(self, env: AbstractEnv[StateType, Array, Array, Any]):\n        self.env = env\n", "    def __init__(self, env: AbstractEnv[StateType, Array, Array, Any]):\n        self.env = env\n\n    def __eq__(self, other):\n        return isinstance(other, LeraxToGymnaxEnv) and self.env.name == other.env.name\n\n    def __hash__(self):\n        return hash(self.env.name)\n")),
     V("S6-v-gymnax-adapter-eq-by-env", ["C01", "C11"], ("lerax/compatibility/gymnax.py", "    def __init__(self, env: AbstractEnv[StateType, Array, Array, Any]):\n        self.env = env\n", "    def __init__(self, env: AbstractEnv[StateType, Array, Array, Any]):\n        self.env = env\n        self.state = None\n\n    def __eq__(self, other):\n        return isinstance(other, LeraxToGymnaxEnv) and self.env == other.env and self.state == other.state\n\n    def __hash__(self):\n        return hash(id(self.env))\n")),
